@@ -13,7 +13,7 @@ static const char *MEMBERS[] = {"kty", "alg", "use", "key_ops", "kid", "crv", "x
 extern "C" int LLVMFuzzerTestOneInput(const uint8_t *data, size_t size) {
   init_jwks();
   FuzzedDataProvider fdp(data, size);
-  int entry = fdp.ConsumeIntegralInRange<int>(0, 7), prov = fdp.ConsumeIntegralInRange<int>(0, 1); bool guard = fdp.ConsumeBool();
+  int entry = fdp.ConsumeIntegralInRange<int>(0, 7), prov = fdp.ConsumeIntegralInRange<int>(0, 1); bool guard = fdp.ConsumeBool(); bool pollute = fdp.ConsumeBool();
   int wrap = fdp.ConsumeIntegralInRange<int>(0, 4);  // 0 bare object, 1 keys array, 2 keys non-array, 3 top-level array, 4 scalar
   int nkeys = wrap == 1 ? fdp.ConsumeIntegralInRange<int>(0, 4) : 1;
   static const char *KN[] = {"rsa_2048", "ec_p256", "ec_p384", "ec_p521", "ec_k256", "ed25519", "ed448", "oct64", "oct32"};
@@ -52,6 +52,6 @@ extern "C" int LLVMFuzzerTestOneInput(const uint8_t *data, size_t size) {
   case 3: doc = "[" + objs + "]"; break;
   case 4: doc = fdp.ConsumeBool() ? "123" : "\"str\""; break;
   }
-  load_with_oracle(entry, prov, doc, guard);
+  load_with_oracle(entry, prov, doc, guard, pollute);
   return 0;
 }
